@@ -10,11 +10,11 @@ CONSTANTS
   SubCfgs <- mcSubCfgs
   MsgKinds <- mcMsgKinds
   BatchMax <- mcBatchMax
-  MaxMsgs = 2
+  MaxMsgs = 1
   MaxTopics = 3
   MaxSubs = 4
   MaxDels = 4
-  MaxTime = 2
+  MaxTime = 3
   TickDs <- mcTickDs
   PullMaxes <- mcPullMaxes
   AckMax = 1
